@@ -24,7 +24,7 @@ AXES = [None, "time", "leadtime", "year", "month", "week", "day", "timeofday", "
         "dayofmonth", "location", "elev", "lat", "lon", "threshold", "leadtimeday", "no", "obs", "fcst"]
 TYPES = ["plot", "text", "csv", "map", "rank", "maprank", "impact", "mapimpact"]
 VARIANTS = ["none", "r1", "r3", "q2", "r1q1", "b_within", "agg_median", "b_below_eq", "r1_within", "q1", "agg_min", "agg_range", "agg_iqr", "agg_q", "agg_count", "sub_tod", "sub_d", "sub_o", "r3_aggmax", "r3_aggq"]
-SHAPES = ["prob2", "single", "allmiss", "det1", "nc2c"]
+SHAPES = ["prob2", "single", "allmiss", "det1", "nc2c", "five"]
 
 
 def metric_names():
@@ -68,6 +68,9 @@ def build_shape(shape, workdir, seed):
                 c["p"] = [None] * len(inp["thresholds"])
                 c["q"] = [None] * len(inp["quantiles"])
                 c["e"] = [None] * inp["members"]
+    elif shape == "five":
+        ds = gen.make_dataset(rng, n_inputs=5, fmt="text", prob=True, ens=True, pit=True, miss=0.05, sparse=0.0, members=2,
+                              thresholds=[0.0, 5.0, 10.0], quantiles=[0.1, 0.5, 0.9], max_t=3, max_l=3, max_s=3)
     elif shape == "nc2c":
         # two NetCDF inputs with shuffled dimension entries and mixed missing encodings, plus a climatology (-c)
         ds = gen.make_dataset(rng, n_inputs=2, fmt="nc", clim=True, prob=True, ens=True, pit=True, miss=0.1, members=3,
